@@ -7,8 +7,8 @@ package main
 import (
 	"bufio"
 	"encoding/json"
-	"fmt"
 	stderrors "errors"
+	"fmt"
 	"sort"
 
 	"github.com/go-openapi/errors"
@@ -19,7 +19,7 @@ import (
 
 // one call of a history
 type poolCall struct {
-	Kind   string      `json:"kind"` // oneshot | validator | param | header
+	Kind   string      `json:"kind"`                 // oneshot | validator | param | header
 	NilSch bool        `json:"nil_schema,omitempty"` // the schema argument is nil (the API accepts it)
 	Schema *schemaCase `json:"schema,omitempty"`
 	Simple *simpleCase `json:"simple,omitempty"`
